@@ -436,6 +436,18 @@ def driver(seed, count):
     sig_pool = [mkdec(False, rdigits(rng, rng.randint(1, 3)), rng.randint(-4, 2)) for _ in range(60)] + \
                [mkdec(False, d, e) for d, e in (([1], 0), ([2], 0), ([5], 0), ([1], -1), ([2, 5], -2), ([3], 0), ([1], 1),
                                                 ([1], -2), ([5], -2), ([7], -3), ([1, 2, 5], -3), ([1], 3), ([6], 1))]
+    # numbers of 1E+15 and more whose double is not the decimal it is written as (1E+23 is 99999999999999991611392): rounding works
+    # on the decimal - in every run, whatever the seed
+    for dg, e in (([1], 23), ([3], 25), ([1, 2, 3, 4, 5, 6, 7, 8, 9, 0, 1, 2, 3, 4, 5], 3), ([3, 6, 8, 2, 5], 233), ([7], 22), ([1, 1], 16), ([9, 9, 9, 9, 5], 18)):
+        for neg in (False, True):
+            x = mkdec(neg, dg, e)
+            top = e + len(dg) - 1
+            for f in ROUNDF:
+                for d in (-(top - 1), -(top - 3), -10, -3):
+                    if -d <= top:
+                        emit(f, [x, dint(d)])
+            for f in ('CEILING', 'FLOOR'):
+                emit(f, [x, mkdec(neg, [1], top - 1)])
     while len(ev) < count:
         k = rng.random()
         if k < 0.30:
